@@ -4,7 +4,7 @@ import core, gen, gen_units as G, canon
 from core import hx, unhx
 
 LEAN_MODULE = 'QM.Props.C17Sites'
-THEOREMS = ['Pth.C17_clean_eq_spec', 'Pth.C17_clean_normal', 'Pth.C17_resolve', 'Pth.C17_absolute', 'Pth.C17_no_cwd', 'Pth.C17_specifier', 'Cv.C17_storage_source_call_site', 'Cv.C17_storage_source_other', 'Cv.C17_yaml_call_site', 'Cv.C17_absFromUnit_eq', 'Cv.C17_url_prefix', 'Cv.C17_build_custom_anchored']
+THEOREMS = ['Pth.C17_clean_eq_spec', 'Pth.C17_clean_normal', 'Pth.C17_resolve', 'Pth.C17_absolute', 'Pth.C17_no_cwd', 'Pth.C17_specifier', 'Pth.C17_specifier_kept', 'Cv.C17_storage_source_call_site', 'Cv.C17_storage_source_other', 'Cv.C17_yaml_call_site', 'Cv.C17_absFromUnit_eq', 'Cv.C17_url_prefix', 'Cv.C17_build_custom_anchored']
 ASSUMPTIONS = [
     'Pth.components models std::path::Path::components on Unix (third-party behaviour, modelled from its documentation); Pth.cleaned / absoluteFrom / startsWithSpecifier are hand-written models of path_buf_ext.rs; tied by exhaustive correspondence over component lists with all separator decorations',
     'Pth.Spec.clean states Go filepath.Clean semantics for rooted paths (what upstream Quadlet uses)',
@@ -196,6 +196,24 @@ def oracle(ctx):
                 uq = ctx.impl(['unquote\t' + hx(wd[-1])])[0] if wd else ''
                 if not wd or uq != 'ok ' + hx(want):
                     fail = f'WorkingDirectory {wd} != {want!r}'
+        if spec and r.startswith('%') and kind in ('yaml', 'configmap', 'envfile', 'wd-yaml', 'wd-file'):
+            # "paths that start with a systemd specifier are not resolved": wherever the path (or the directory derived from it) lands, it
+            # still begins with the specifier — the unit directory is not put in front of it
+            first = r.split('/')[0]
+            exact = r
+            if kind in ('wd-yaml', 'wd-file'):
+                wd = [v for k, v in rr[2].get('Service', []) if k == 'WorkingDirectory']
+                uq = ctx.impl(['unquote\t' + hx(wd[-1])])[0] if wd else ''
+                got = unhx(uq[3:]) if uq.startswith('ok ') else None
+                if '/' in r.rstrip('/') and (got is None or got.split('/')[0] != first):
+                    fail = f'WorkingDirectory {wd} must begin with the specifier {first!r} of the path it is derived from (not resolved)'
+            else:
+                flag = {'configmap': '--configmap', 'envfile': '--env-file'}.get(kind)
+                got = words[-1] if kind == 'yaml' else (words[words.index(flag) + 1] if flag in words else None)
+                if got is None or got.split('/')[0] != first:
+                    fail = f'{kind} path {got!r} must begin with the specifier {first!r} (not resolved)'
+                elif got != exact and not any(c in r for c in ' \t"\'\\'):
+                    fail = f'{kind} path {got!r}: a specifier path is passed on as it was written, {exact!r}'
         if fail:
             res.oracle_failures.append(dict(op=line, input=dict(unit_dir=unitdir, path=r, key=kind), impl_output=core.dec_line(a)[:500], oracle_expectation=fail))
     # several path-valued entries in one unit — also the *same* source more than once: every occurrence is resolved
